@@ -98,6 +98,8 @@ class SimSocket:
         return kernel.k_write(cur_sim(), self._ofd(), data, what='send', partial=True)
 
     def recv(self, n, flags=0):
+        if flags & _real.MSG_WAITALL and self._timeout is None:
+            return kernel.k_read_waitall(cur_sim(), self._ofd(), n, what='recv')
         return kernel.k_read(cur_sim(), self._ofd(), n, timeout=self._timeout, what='recv')
 
     def shutdown(self, how):
